@@ -88,6 +88,21 @@ Theorem C20_jitter_keep_support : forall s e ts ds, s < e ->
 Proof. exact jitter_keep_spec. Qed.
 Print Assumptions C20_jitter_keep_support.
 
+(* ... exactly, as a multiset: the stamps t_k + d_k that fall inside [s, e]; hence every returned stamp is an input stamp
+   moved by its own draw (at most J), and a stamp that NO move of at most J can take out of [s, e] is never lost *)
+Theorem C20_jitter_keep_exact : forall s e ts ds, s < e ->
+  Permutation (filter (insideb s e) (add_draws ts ds)) (fst (jitter_ts true s e ts ds)).
+Proof. exact jitter_keep_exact. Qed.
+Print Assumptions C20_jitter_keep_exact.
+
+Theorem C20_jitter_keep_members : forall J s e ts ds, s < e -> length ds = length ts -> Forall (fun d => Z.abs d <= J) ds ->
+  (forall x, In x (fst (jitter_ts true s e ts ds)) ->
+     exists k, (k < length ts)%nat /\ x = nth k ts 0 + nth k ds 0 /\ Z.abs (x - nth k ts 0) <= J /\ inside s e x)
+  /\ (forall k, (k < length ts)%nat -> s + J <= nth k ts 0 <= e - J ->
+        In (nth k ts 0 + nth k ds 0) (fst (jitter_ts true s e ts ds))).
+Proof. exact jitter_keep_members. Qed.
+Print Assumptions C20_jitter_keep_members.
+
 (* 5. TsGroup, support passed on (shift, resample, jitter keep_tsupport=True): the group result is, member by
       member, the Ts generator applied with that member's own draw; the group support is kept; keys kept *)
 Theorem C20_group_shift : forall s e g sigmas,
@@ -197,6 +212,14 @@ Print Assumptions C20_group_recomputed_support_raises_refuted.
 Theorem C20_shuffle_empty : forall perm, shuffle_ts [] perm = Some ([], []).
 Proof. exact shuffle_ts_empty. Qed.
 Print Assumptions C20_shuffle_empty.
+
+(* the EMPTY Ts (pynapple gives it an empty support): every generator returns it unchanged - nothing in, nothing out.
+   The model says so; shift_timestamps and resample_timestamps of the code RAISE on it (harness part G, key empty_input=True) *)
+Theorem C20_empty_ts : forall s e sigma keep ds perm,
+  shift_ts s e sigma [] = ([], []) /\ resample_ts s e [] = ([], [])
+  /\ jitter_ts keep s e [] ds = ([], []) /\ shuffle_ts [] perm = Some ([], []).
+Proof. exact empty_ts_spec. Qed.
+Print Assumptions C20_empty_ts.
 
 Theorem C20_group_shuffle_empty_member :
   shuffle_group [(0, [10; 20; 50]); (1, [])] [[1%nat; 0%nat]; []] = Some ([(0, [10; 40; 50]); (1, [])], [(10, 50)]).
